@@ -12,7 +12,7 @@ import random
 from ..drive import build, candidate_imports, mk_rule, random_imports, random_tree, run
 from ..monitors import HUB
 from ..refmodel import rules as rrule
-from ..refmodel.names import is_ancestor, related
+from ..refmodel.names import close_under_ancestors, is_ancestor, related
 from . import c01
 
 ID = "C12"
@@ -270,6 +270,60 @@ def nested_batch_family(ev, mods, imps, s, objs, acc):
                 HUB.violation("C12", f"duality:{verb}:nested-subject-batch", f"'S {verb} {d} [P, P.q]' gave {out[(verb, d, False)]} but its dual with the batch as subject gave {dual}", dict(w, dual=dual))
 
 
+def kept_rules_over_dying_architectures(rnd, acc, forced=None, rounds=10):
+    """Rule objects that are defined once (module-level constants of a test module) and applied to every architecture of a
+    build / evaluate / drop loop, in which every architecture is most likely allocated where its dead predecessor was.  On
+    each architecture 'S verb import O' (kept object, regex S) must agree with 'O verb be imported by S' (fresh object, S
+    given by the names the regex matches there), and the other way round."""
+    import re as _re
+
+    from ..drive import Recycler
+
+    if forced:
+        rx, o, seq = forced["rx"], tuple(forced["o"]), forced["seq"]
+    else:
+        base = random_tree(rnd, 6, 9)
+        parents = [m for m in base if m != "r"]
+        p = rnd.choice(parents)
+        rx = _re.escape(p) + rnd.choice([r"(\.\w+)?$", r"\.\w+$", r"(\..*)?$"])
+        others = [m for m in parents if not related(m, p)]
+        if not others:
+            return
+        o = ("named", rnd.choice(others))
+        seq = []
+        for _ in range(rounds):
+            extra = sorted({p + "." + rnd.choice(["x", "y", "z", "w", "v", "x.deep"]) for _ in range(rnd.randint(1, 4))})
+            mods = sorted(close_under_ancestors(set(base) | set(extra)))
+            imps = random_imports(rnd, mods, k_max=8)
+            for e in extra:  # the modules only this round has take part in the imports the rules are about
+                if rnd.random() < 0.6 and not related(e, o[1]):
+                    imps = sorted(set(imps) | {rnd.choice([(e, o[1]), (o[1], e)])})
+            seq.append((mods, imps))
+    s = ("regex", rx)
+    case = {"kind": "kept_rules", "rx": rx, "o": o, "seq": seq, "mods": [], "imps": []}
+    kept = {(verb, d): mk_rule(cfg_of(verb, d, False, s, o)) for verb in ("should", "should_not") for d in rrule.DIRS}
+    rc = Recycler()
+    for i, (mods, imps) in enumerate(seq):
+        imps = [tuple(e) for e in imps]
+        ev = rc.next(mods, imps)
+        HUB.case = dict(case, round=i)
+        matched = [m for m in mods if _re.match(rx, m)]
+        if not matched:
+            continue
+        for (verb, d), r in kept.items():
+            a = run(r, ev)[0]
+            dual = cfg_of(verb, "be" if d == "import" else "import", False, o, s)
+            dual["objs"] = [("named", m) for m in matched]
+            b = run(mk_rule(dual), ev)[0]
+            acc.evaluated(2)
+            acc.count("law_duality")
+            acc.count("duality_checks_with_kept_rule_objects_on_recycled_architectures")
+            if a != b:
+                HUB.violation("C12", f"duality:{verb}:kept-regex-rule-object", f"'S {verb} {d} O' (a rule object kept over a build / evaluate / drop loop, S a regex) gave {a}, 'O {verb} ... S' with S spelled out gave {b} on the same architecture (round {i})", {"rx": rx, "o": o, "round": i, "mods": mods, "imps": imps, "matched": matched})
+        del ev
+    rc.drop()
+
+
 def one_family(ev, mods, imps, s, o, acc, fid, mono_edges):
     out = eval_family(ev, mods, imps, s, o, acc, fid)
     acc.count("families")
@@ -427,6 +481,8 @@ def randomised(spec, acc):
         big_families(rnd, acc)
     n = 0
     while n < spec["n"]:
+        if n % 8 == 0:
+            kept_rules_over_dying_architectures(rnd, acc)
         mods = random_tree(rnd, 7, 12)
         imps = random_imports(rnd, mods, k_max=10)
         ev = build(mods, imps)
@@ -491,6 +547,8 @@ def replay(case, acc):
     if case["kind"] == "source_mono":
         acc.mark_inconclusive("source-level monotonicity cases are replayed by re-running the check with the recorded seed")
         return
+    if case["kind"] == "kept_rules":
+        return kept_rules_over_dying_architectures(random.Random(0), acc, forced=case)
     if case["kind"] == "nested_batch_family":
         return nested_batch_family(build(mods, imps), mods, imps, tuple(case["s"]), [tuple(o) for o in case["objs"]], acc)
     if case["kind"] == "regex_family":
@@ -516,6 +574,8 @@ def floors(acc, tier):
         why.append(f"negation law on unmatched regexes: {acc.counters['law_negation_unmatched_regex']}")
     if acc.counters["regex_families_with_reused_rule_objects"] < 30:
         why.append(f"regex families with re-used rule objects: {acc.counters['regex_families_with_reused_rule_objects']}")
+    if acc.counters["duality_checks_with_kept_rule_objects_on_recycled_architectures"] < 200 or acc.counters["architectures_built_at_the_address_of_a_dead_predecessor"] < 50:
+        why.append(f"kept rule objects on recycled architectures: {acc.counters['duality_checks_with_kept_rule_objects_on_recycled_architectures']} checks, {acc.counters['architectures_built_at_the_address_of_a_dead_predecessor']} address re-uses")
     if acc.counters["source_monotonicity_second_from_import_of_a_package"] < 10:
         why.append("too few appended from-imports of a package the file already imports from")
     if acc.counters["source_monotonicity_pairs"] < 50:
